@@ -31,7 +31,7 @@ func main() {
 		"part E: PRNG families of declared types (3..6 structs embedding earlier ones by value or pointer, 1..2 diamonds = one type reached through two embedded fields at equal depth 2..4 - or unequal depth - by value or pointer, skewed embeddings, twins = distinct named types with identical underlying types (also up to tags), named and aliased pointer/slice/array/map/chan/func/struct composites over them, named basics, methods with value/pointer receivers) declared in a gomacro interpreter and type-checked by the toolchain's go/types: "+
 		"FieldByName/MethodByName of every struct x every pool name (twice) against go/types.LookupFieldOrMethod, Identical/AssignableTo/ConvertibleTo/Comparable of the fork's go/types and of xreflect on every ordered pair against the toolchain's go/types (xreflect Assignable/Convertible only where its reflect shortcut does not fire: known class C29-K1). "+
 		"A case is one type (A,B), one ordered pair (C) or one history (D); non-trivial = composite kind (A,B), pair of different types (C), history with a repeated term (D); distinct by SHA-256 of the canonical type text")
-	wd := vh.NewWatchdog(rep, 120*time.Second)
+	wd := vh.NewWatchdog(rep, 180*time.Second)
 	wd.Beat("setup: go list -export")
 	t0 := time.Now()
 	files, err := exportFiles("./cmd/c29") // every package linked into this binary, hence every package that registered an import table
